@@ -113,6 +113,12 @@ BoundaryEdgesExact(e, own) == Has3D(e.kind) =>
    /\ VSet(e.bedges) = {g \in 1..NE(e) : \E f \in TrueBFacets(e, own) : EdgeOfFacet(e, g, f)}
    /\ IsInjectiveSeq(e.bedges)
 
+\* interior edges are exactly the edges that are not boundary edges (both sets judged against the cell list)
+InteriorEdgesExact(e, own) == (Has3D(e.kind) /\ "iedges" \in DOMAIN e) =>
+   /\ ~Raised(e, "iedges")
+   /\ VSet(e.iedges) = (1..NE(e)) \ {g \in 1..NE(e) : \E f \in TrueBFacets(e, own) : EdgeOfFacet(e, g, f)}
+   /\ IsInjectiveSeq(e.iedges)
+
 IncidenceMatrices(e) ==
   /\ \A n \in {"p2f", "p2t", "p2e", "e2t"} : ~Raised(e, n)
   /\ Len(e.p2f) = NF(e) /\ \A f \in 1..NF(e) : VSet(e.p2f[f]) = VSet(e.facets[f])
@@ -166,6 +172,7 @@ ConnClauses(e) ==
       BoundaryNodesExact |-> BoundaryNodesExact(e, own),
       InteriorBoundaryPartition |-> InteriorBoundaryPartition(e),
       BoundaryEdgesExact |-> BoundaryEdgesExact(e, own),
+      InteriorEdgesExact |-> InteriorEdgesExact(e, own),
       IncidenceMatrices |-> IncidenceMatrices(e),
       HexCyclic |-> HexCyclic(e),
       CountsAgree |-> CountsAgree(e) ]
